@@ -55,3 +55,8 @@ pub use crate::jq::verif_normalize_extreme_literal_mantissa;
 pub use crate::yaml::{verif_needs_explicit_float_tag, verif_write_i64};
 /// `FORWARD_WALK_CAP` of `text::LineIndex` (C12 generator probes walks around it).
 pub use crate::text::lines::VERIF_FORWARD_WALK_CAP;
+/// YAML position tables (C17): `OpenPositions`, `AdvancePositions`, `AdvancePositionsCursor`,
+/// `EndPositions`, `CompactEndPositions` with their `verif_*` accessors.
+pub use crate::yaml::verif_positions::{
+    AdvancePositions, AdvancePositionsCursor, CompactEndPositions, EndPositions, OpenPositions,
+};
